@@ -1,7 +1,10 @@
 (* Decidable form of property C18 (vectored offer = offer of the concatenation), evaluated on what the implementation
    returned for a vectored offer and for the contiguous offer of the same bytes on twin logs.
    Observations have the shape of Oracle/C04Oracle.v: (result, (term count, raw tails, changed words per partition), position()). *)
-Require Import V.Base.MachineInt V.Generated.GenConsts V.Model.LogBase V.Oracle.C04Oracle.
+Require Import V.Base.MachineInt.
+Require Import V.Generated.GenConsts.
+Require Import V.Model.LogBase.
+Require Import V.Oracle.C04Oracle.
 Open Scope Z_scope.
 
 Definition res_eqb (a b : outcome Z) : bool :=
